@@ -310,7 +310,15 @@ func (m srvMux) Assign(ctx context.Context, method string) jrpc2.Handler {
 	}
 	return nil
 }
-func (m srvMux) Names() []string { return []string{"m", "m2"} }
+
+// Names is what the built-in rpc.serverInfo handler calls to do its work: the moment it runs is
+// logged with the number of user handlers executing at that instant (C06 counts built-ins too).
+func (m srvMux) Names() []string {
+	m.r.hmu.Lock()
+	m.r.Log = append(m.r.Log, fmt.Sprintf("builtinwork running=%d", m.r.Running))
+	m.r.hmu.Unlock()
+	return []string{"m", "m2"}
+}
 
 // openGates returns the gates that can be released, in a deterministic order.
 func (r *srvRun) openGates() []*gate {
@@ -465,7 +473,7 @@ func runServerScenario(t *testing.T, sc *srvScenario, pickFn func(n int) int, sk
 			nOps := 0
 			if nextOp < len(sc.Ops) {
 				nOps = 1
-				if op := sc.Ops[nextOp]; op.Kind == "cbreply" || op.Kind == "cbreplyerr" || op.Kind == "cbreplybad" {
+				if op := sc.Ops[nextOp]; op.Kind == "cbreply" || op.Kind == "cbreplyerr" || op.Kind == "cbreplybad" || op.Kind == "cbreplyarr" {
 					r.hmu.Lock()
 					_, pushed := r.cbIDs[op.Arg]
 					r.hmu.Unlock()
@@ -551,7 +559,7 @@ func runServerScenario(t *testing.T, sc *srvScenario, pickFn func(n int) int, sk
 					r.nextSend++
 					r.sendTags = append(r.sendTags, memberTags(op.Arg))
 					r.cli.Send([]byte(op.Arg))
-				case "cbreply", "cbreplyerr", "cbreplybad":
+				case "cbreply", "cbreplyerr", "cbreplybad", "cbreplyarr":
 					r.hmu.Lock()
 					id := r.cbIDs[op.Arg]
 					r.hmu.Unlock()
@@ -561,6 +569,9 @@ func runServerScenario(t *testing.T, sc *srvScenario, pickFn func(n int) int, sk
 					}
 					if op.Kind == "cbreplybad" { // a failure report whose error member is not an error object
 						msg = fmt.Sprintf(`{"jsonrpc":"2.0","id":%s,"error":"cbbad-%s"}`, id, op.Arg)
+					}
+					if op.Kind == "cbreplyarr" { // the reply inside a one-element batch, on a CR LF delimited stream
+						msg = "\r\n[" + msg + "]\r\n"
 					}
 					r.logf("send %d %s", r.nextSend, msg)
 					r.nextSend++
